@@ -333,6 +333,20 @@ def load_probes():
 def make_cases(ctx, n, fixed=True):
     """`fixed`: the regression corpus and the sink probes come first (first batch only)."""
     progs = (load_corpus() + load_probes()) if fixed else []
+    size_probes = []
+    if fixed:
+        # size probes (fourth audit): every required shape / size at least once per run, drawn with the run's seed. The two
+        # graphs of more than 100 blocks (a branch region more than 36 reachability rounds deep) are spread over the list
+        # (they cost the Gallina mirrors 20-40 s each and should land in different shards)
+        for shape in ("long-chain", "long-chain", "loop-nesting-3", "merged-const-condition", "merged-const-condition",
+                      "const-loop-cond", "while-true", "trailing-loop-with-control"):
+            q = c09gen.forced(ctx.rng, shape)
+            q["alphabet"] = "size-probe"
+            progs.append(q)
+        for _ in range(1):
+            q = c09gen.forced(ctx.rng, "deep-region")
+            q["alphabet"] = "size-probe"
+            size_probes.append(q)
     for _ in range(n):
         if ctx.rng.random() < 0.12:
             p = targeted(ctx.rng)
@@ -341,6 +355,8 @@ def make_cases(ctx, n, fixed=True):
         else:
             p = c09gen.generate(ctx.rng)
         progs.append(p)
+    for k, q in enumerate(size_probes):
+        progs.insert((k * len(progs)) // max(1, len(size_probes)) + len(progs) // 5, q)
     return progs
 
 
@@ -381,7 +397,8 @@ def evaluate(ctx, progs, nval, nrep):
             model_in.append(MODEL_MODE + " " + sexp.show(sx[1]) + (" " + sexp.show(sx[4]) if len(sx) > 4 else "")
                             + (" " + sexp.show(real_b[0]) if real_b else ""))
             # region-cover engine: the graph, plus the REAL region table and the REAL tainted set
-            region_in.append(sexp.show(sx[1]) + " " + sexp.show(sx[2]) + (" " + sexp.show(real_b[0]) if real_b else ""))
+            region_in.append(sexp.show(sx[1]) + " " + sexp.show(sx[2]) + (" " + sexp.show(real_b[0]) if real_b else "")
+                             + " (p %x)" % c09sem.P)
     model = common.run_lines(MODEL_BIN, [], model_in, shards=common.NPROC, timeout=1500)
     if len(model) != len(model_in):
         raise common.BuildError("model taint: %d outputs for %d inputs" % (len(model), len(model_in)), "")
@@ -389,11 +406,25 @@ def evaluate(ctx, progs, nval, nrep):
     region = common.run_lines(REGION_BIN, [], region_in, shards=common.NPROC, timeout=1500)
     if len(region) != len(region_in):
         raise common.BuildError("model ctlregion: %d outputs for %d inputs" % (len(region), len(region_in)), "")
+    # self-test of `vj` (fourth audit): the same dumps with ONE non-constant branch condition marked constant true must be
+    # rejected by the validator - a dump with a wrongly folded condition used to leave cover / self / ctl = 1
+    flip_in = []
+    for i in ok_idx:
+        if len(flip_in) >= 40:
+            break
+        fl = flipped_condition(parsed[i][1])
+        if fl is not None:
+            flip_in.append(sexp.show(fl) + " " + sexp.show(parsed[i][2]) + " (p %x)" % c09sem.P)
+    flip_out = common.run_lines(REGION_BIN, [], flip_in, shards=common.NPROC, timeout=1500) if flip_in else []
+    flips = {"dumps_with_one_condition_wrongly_marked_constant": len(flip_in),
+             "rejected_by_vjust_cfg": len([o for o in flip_out if "(vj 0)" in o])}
     lap("region-cover hypotheses")
     # hypotheses of C09_noninterference_with_region_cover (idx, cover, self), of ..._with_implicit_flows (ctl) and
     # `every block reaches an exit` (exit), per dumped graph; coverreal / selfreal: the same on the REAL table / tainted set
     hyp = dict((k, {"evaluated": 0, "false": 0}) for k in REGION_FIELDS)
-    region_fail, exit_fail, region_bad_output = [], [], []
+    region_fail, exit_fail, region_bad_output, template_returns = [], [], [], []
+    const_conditions = conditions = 0
+    sizes = dict((k, 0) for k in REQUIRED_SIZES)
     for i, ro in zip(ok_idx, region):
         try:
             rx = sexp.parse(ro)
@@ -403,12 +434,25 @@ def evaluate(ctx, progs, nval, nrep):
         if not vals:
             region_bad_output.append({"source": progs[i]["source"], "output": ro[:120]})
             continue
+        if [k for k in REGION_FIELDS if vals.get(k) not in ("0", "1")]:
+            # a field that was not evaluated (`-`: the harness printed no real table / tainted set) is no verdict
+            region_bad_output.append({"source": progs[i]["source"], "output": ro[:200]})
+            continue
         for k in REGION_FIELDS:
-            v = vals.get(k, "-")
-            if v in ("0", "1"):
-                hyp[k]["evaluated"] += 1
-                hyp[k]["false"] += v == "0"
-        bad = [k for k in ("idx", "cover", "self", "coverreal", "selfreal") if vals.get(k) == "0"]
+            hyp[k]["evaluated"] += 1
+            hyp[k]["false"] += vals[k] == "0"
+        nb, tr, rr = size_stats(parsed[i][3], parsed[i][1], parsed[i][2],
+                                bool(set(progs[i].get("features", [])) & {"long-chain", "many-blocks", "deep-region"}))
+        sizes["max_blocks_in_a_graph"] = max(sizes["max_blocks_in_a_graph"], nb)
+        sizes["max_rounds_of_multi_step_taint"] = max(sizes["max_rounds_of_multi_step_taint"], tr)
+        sizes["max_rounds_of_region_reachability"] = max(sizes["max_rounds_of_region_reachability"], rr)
+        sizes["max_loop_nesting_in_a_source"] = max(sizes["max_loop_nesting_in_a_source"], loop_nesting(progs[i]["body"]))
+        nconst, nif, has_ret = condition_stats(parsed[i][1])
+        const_conditions += nconst
+        conditions += nif
+        if has_ret and parsed[i][1][1] == "template":
+            template_returns.append(progs[i]["source"])
+        bad = [k for k in ("idx", "cover", "self", "coverreal", "selfreal", "vj") if vals.get(k) == "0"]
         if bad:
             region_fail.append({"source": progs[i]["source"], "prog": strip(progs[i]), "false": bad, "values": vals,
                                 "real_regions": sorted(sexp.show(e) for e in parsed[i][2][1:])})
@@ -513,14 +557,110 @@ def evaluate(ctx, progs, nval, nrep):
             "claims": claims, "claim_kinds": kinds, "oracle_runs": oracle_runs, "programs_with_claims": len(jobs), "corpus_fail": corpus_fail, "wf_fail": wf_fail,
             "ssa_fail": ssa_fail, "sink_incons": sink_incons, "control_fail": control_fail,
             "ctl_fail": ctl_fail, "ctl_pairs": ctl_pairs, "unclassified": unclassified, "dfmax": dfmax,
-            "hyp": hyp, "region_fail": region_fail, "exit_fail": exit_fail, "region_bad_output": region_bad_output,
+            "sizes": sizes, "flips": flips, "hyp": hyp, "const_conditions": const_conditions, "conditions": conditions, "template_returns": template_returns,
+            "region_fail": region_fail, "exit_fail": exit_fail, "region_bad_output": region_bad_output,
             "parsed": parsed, "impl": impl}
 
 
 # shapes on which the control-dependence specification was wrong before proof round 4 (no successor-free block): a run in
 # which the generator never produces them is a failure
-REQUIRED_SHAPES = ("trailing-loop", "branch-ends-in-loop")
-REGION_FIELDS = ("idx", "cover", "self", "ctl", "exit", "coverreal", "selfreal")
+REQUIRED_SHAPES = ("trailing-loop", "branch-ends-in-loop",
+                   # fourth audit: sizes and shapes the generator never reached
+                   "trailing-loop-with-control", "merged-const-condition", "const-loop-cond", "while-true",
+                   "long-chain", "deep-region", "loop-nesting-3")
+# measured on the dumped graphs / sources of a run; a run that stays below is a failure (a cap on a closure loop would escape)
+REQUIRED_SIZES = {"max_blocks_in_a_graph": 75, "max_rounds_of_multi_step_taint": 36, "max_loop_nesting_in_a_source": 3,
+                  "max_rounds_of_region_reachability": 34}
+
+
+def loop_nesting(ss, d=0):
+    m = d
+    for st in ss:
+        t = st[0]
+        if t == "if":
+            m = max(m, loop_nesting(st[2], d), loop_nesting(st[3] or [], d))
+        elif t == "while":
+            m = max(m, loop_nesting(st[2], d + 1))
+        elif t == "for":
+            m = max(m, loop_nesting(st[4], d + 1))
+        elif t == "block":
+            m = max(m, loop_nesting(st[1], d))
+    return m
+
+
+def bfs_rounds(succ, starts):
+    """Largest number of rounds a `while !update.is_subset(&result)` closure needs from one of the start nodes."""
+    best = 0
+    for s0 in starts:
+        seen, fr, d = {s0}, [s0], 0
+        while fr:
+            nx = []
+            for a in fr:
+                for b in succ.get(a, ()):
+                    if b not in seen:
+                        seen.add(b)
+                        nx.append(b)
+            if nx:
+                d += 1
+            fr = nx
+        best = max(best, d)
+    return best
+
+
+def size_stats(res_sx, cfg_sx, branches_sx, big):
+    """(blocks, rounds of multi_step_taint, rounds of get_successors from a region start). The two closures are measured on the
+    REAL single-step taint map / the dumped successor lists, and only for definitions the generator marked as big (they are costly)."""
+    blocks = [sec for sec in cfg_sx[1:] if isinstance(sec, list) and sec and sec[0] == "blocks"][0][1:]
+    if not big:
+        return len(blocks), 0, 0
+    taint = {}
+    for sec in res_sx[1:]:
+        if sec[0] == "taint":
+            for row in sec[1:]:
+                taint[sexp.show(row[0])] = [sexp.show(v) for v in row[1:]]
+    succ = dict((b[1], list(b[5])) for b in blocks)
+    starts = set()
+    for b in blocks:
+        for st in b[3]:
+            if st[0] == "if":
+                starts.update(x for x in st[-2:] if x != "-")
+    return len(blocks), bfs_rounds(taint, list(taint)), bfs_rounds(succ, starts)
+
+REGION_FIELDS = ("idx", "cover", "self", "ctl", "exit", "coverreal", "selfreal", "vj")
+
+
+def flipped_condition(cfg_sx):
+    """A copy of the dumped graph in which the first branch condition WITHOUT a value claim that is an infix node is marked
+    `constant true`; None if there is none."""
+    import copy
+    g = copy.deepcopy(cfg_sx)
+    for sec in g[1:]:
+        if isinstance(sec, list) and sec and sec[0] == "blocks":
+            for b in sec[1:]:
+                for st in b[3]:
+                    if st[0] == "if" and isinstance(st[2], list) and st[2][0] == "infix":
+                        k = st[2][-1]
+                        if isinstance(k, list) and len(k) > 1 and k[1] == "-":
+                            k[1] = ["b", "1"]
+                            return g
+    return None
+
+
+def condition_stats(cfg_sx):
+    """(branch statements whose condition carries a constant claim, branch statements, graph has a return statement)."""
+    nconst = nif = 0
+    has_ret = False
+    for sec in cfg_sx[1:]:
+        if isinstance(sec, list) and sec and sec[0] == "blocks":
+            for b in sec[1:]:
+                for st in b[3]:
+                    if st[0] == "if":
+                        nif += 1
+                        k = st[2][-1]          # the know of the condition: (k VALUE|- DEGREE)
+                        nconst += isinstance(k, list) and len(k) > 1 and k[1] != "-"
+                    elif st[0] in ("return", "ret"):
+                        has_ret = True
+    return nconst, nif, has_ret
 
 
 def never_terminates(prog):
@@ -545,14 +685,14 @@ BATCH = 2500
 
 
 def merge(acc, res, base, progs, keep_samples):
-    for k in ("ok", "claims", "programs_with_claims", "oracle_runs", "ctl_pairs"):
+    for k in ("ok", "claims", "programs_with_claims", "oracle_runs", "ctl_pairs", "const_conditions", "conditions"):
         acc[k] = acc.get(k, 0) + res[k]
     for k in ("status", "claim_kinds"):
         d = acc.setdefault(k, {})
         for a, b in res[k].items():
             d[a] = d.get(a, 0) + b
     for k in ("disagreements", "failing", "unmapped", "corpus_fail", "wf_fail", "ssa_fail", "sink_incons", "control_fail",
-              "ctl_fail", "unclassified", "region_fail", "exit_fail", "region_bad_output"):
+              "ctl_fail", "unclassified", "region_fail", "exit_fail", "region_bad_output", "template_returns"):
         acc.setdefault(k, []).extend(res[k][:50])
     h = acc.setdefault("hyp", dict((k, {"evaluated": 0, "false": 0}) for k in REGION_FIELDS))
     for k in REGION_FIELDS:
@@ -562,6 +702,12 @@ def merge(acc, res, base, progs, keep_samples):
               "region_fail", "exit_fail", "region_bad_output"):
         acc["n_" + k] = acc.get("n_" + k, 0) + len(res[k])
     acc["dfmax"] = max(acc.get("dfmax", 0), res["dfmax"])
+    fl = acc.setdefault("flips", {})
+    for k, v in res["flips"].items():
+        fl[k] = fl.get(k, 0) + v
+    sz = acc.setdefault("sizes", dict((k, 0) for k in REQUIRED_SIZES))
+    for k in REQUIRED_SIZES:
+        sz[k] = max(sz[k], res["sizes"][k])
     acc["n_exit_legit"] = acc.get("n_exit_legit", 0) + len([c for c in res["exit_fail"] if c["legitimate"]])
     acc["n_disagreements"] = acc.get("n_disagreements", 0) + len(res["disagreements"])
     acc["n_failing"] = acc.get("n_failing", 0) + len(res["failing"])
@@ -618,7 +764,9 @@ def finish(ctx, proofs, res, feats, alph, nval, nrep):
         ctx.violation("hypothesis of C09_noninterference_with_region_cover false on this definition: %s = 0 (idx = block indices distinct, "
                       "cover = every block control dependent on a non-constant branch is in its region [Spec.CtlRegion.region_covers_b], "
                       "self = the writes of a loop header that depends on itself are tainted [self_closed_b]; `real` = evaluated on the region "
-                      "table / tainted set the implementation computed, else on the mirror's) (%d definitions)"
+                      "table / tainted set the implementation computed, else on the mirror's; vj = every value claim of the dumped graph, "
+                      "in particular every branch condition the taint pass skips as CONSTANT, passes the verified validator "
+                      "Model.Justify.vjust_cfg) (%d definitions)"
                       % (", ".join(c["false"]), res["n_region_fail"]),
                       {"input": c["source"], "prog": c["prog"],
                        "impl": {"get_true_branch/get_false_branch": c["real_regions"], "ctlregion": c["values"]},
@@ -666,6 +814,17 @@ def finish(ctx, proofs, res, feats, alph, nval, nrep):
                           % (res["n_region_bad_output"], res["region_bad_output"][0]["output"]),
                           {"broken": "model driver ctlregion (hypotheses of C09_noninterference_with_region_cover not evaluated)",
                            "first": res["region_bad_output"][0]}, no_input=True)
+        elif res["flips"]["rejected_by_vjust_cfg"] < res["flips"]["dumps_with_one_condition_wrongly_marked_constant"] \
+                or not res["flips"]["dumps_with_one_condition_wrongly_marked_constant"]:
+            ctx.violation("self-test of the constness validation: %s" % res["flips"],
+                          {"broken": "Model.Justify.vjust_cfg as evaluated by ctlregion must reject a dump in which a non-constant "
+                                     "branch condition is marked constant", "flips": res["flips"]}, no_input=True)
+        elif res["template_returns"]:
+            ctx.violation("%d dumped TEMPLATE graphs contain a return statement: Spec.CtlDep.is_exit does not count `return` as an exit "
+                          "(the execution semantics halts there), so control dependence is not meaningful on them"
+                          % len(res["template_returns"]),
+                          {"broken": "domain of the control-dependence specification (no `return` in templates)",
+                           "first": res["template_returns"][0]}, no_input=True)
         elif res["exit_fail"]:
             # checked by hand (proof round 4 follow-up): even `while (1) {..}` keeps the edge out of the loop in the lifted graph
             # (exit = 1), so no source shape makes this legitimately false; `source_has_a_constant_true_loop` is recorded for the reader
@@ -677,6 +836,10 @@ def finish(ctx, proofs, res, feats, alph, nval, nrep):
             ctx.violation("the generator never produced the shape(s) %s in this run" % [f for f in REQUIRED_SHAPES if not feats.get(f)],
                           {"broken": "generator coverage (shapes the control-dependence specification was once wrong on)",
                            "required": list(REQUIRED_SHAPES), "feature_histogram": feats}, no_input=True)
+        elif [k for k in REQUIRED_SIZES if res["sizes"][k] < REQUIRED_SIZES[k]]:
+            ctx.violation("the run stayed below the required sizes %s (reached %s): a cap on a closure loop of the implementation could escape"
+                          % (dict((k, REQUIRED_SIZES[k]) for k in REQUIRED_SIZES if res["sizes"][k] < REQUIRED_SIZES[k]), res["sizes"]),
+                          {"broken": "generator coverage (sizes)", "required": REQUIRED_SIZES, "reached": res["sizes"]}, no_input=True)
         elif res["unclassified"]:
             ctx.violation("%d reports of the side-effect pass could not be classified by code and location (kind `other`): nobody judges them; "
                           "first: %s" % (res["n_unclassified"], res["unclassified"][0]["finding"]),
@@ -727,9 +890,15 @@ def finish(ctx, proofs, res, feats, alph, nval, nrep):
         # coverreal / selfreal = cover / self on the REAL region table / tainted set
         "hypotheses_evaluated": res["hyp"],
         "hypothesis_region_cover_false_on": res["n_region_fail"],
+        # `this condition is constant` is not taken from the implementation on trust: field `vj` above = the verified validator of value
+        # claims on every dumped graph; how many branch conditions carried a constant claim (and were skipped by the taint pass / cdep)
+        "branch_conditions": {"total": res["conditions"], "claimed_constant_and_validated": res["const_conditions"]},
+        "constness_self_test": res["flips"],
+        "template_graphs_with_a_return_statement": len(res["template_returns"]),
         "graphs_with_a_block_that_reaches_no_exit": {"count": res["n_exit_fail"],
                                                      "of_which_source_has_a_constant_true_loop": res["n_exit_legit"]},
         "required_shapes_produced": dict((f, feats.get(f, 0)) for f in REQUIRED_SHAPES),
+        "required_sizes": {"required": REQUIRED_SIZES, "reached": res["sizes"]},
         "hypothesis_ctl_closed_false_on": res["n_ctl_fail"],
         "hypothesis_ctl_closed_evaluated_on": res["ok"],
         "control_dependent_block_pairs_evaluated": res["ctl_pairs"],
@@ -764,6 +933,14 @@ OPEN_STATEMENTS = [
     "keeps its exit edge in the lifted graph)",
 ]
 ASSUMPTIONS = [
+    "`this branch condition is constant` (the taint pass, cdep and the region hypotheses skip such a branch) is the implementation's own "
+    "verdict in the dump; it is VALIDATED per dumped graph by the verified validator Model.Justify.vjust_cfg (field `vj` of the model driver "
+    "ctlregion; C09_skipped_conditions_are_constant; self-tested on every run with dumps in which one condition is wrongly marked constant). "
+    "That a condition which is constant in Spec.ValueSem carries no implicit flow in the abstract-value semantics of Spec.SsaEffects is an "
+    "argument, not a theorem",
+    "observations, not findings (coordinator's decision): CS0008 about a value that only reaches a port of a sub-component (`c.in <== x`) or a "
+    "constraint among intermediate signals only (`mid[v] <== 5`) is false as English but true under the property's effect list; "
+    "`input or output signal` = of the analysed template",
     "get_true_branch / get_false_branch / get_interval are MIRRORED (Model.BranchRegion over Model.Dom's dominance frontier) since the "
     "third audit; the regions dumped from the real Cfg for every branch block are compared with the mirror's on every definition "
     "(section `branches` of the correspondence) and are no longer an input of the model",
